@@ -297,3 +297,47 @@ MANIFEST_TEXT["C16"] = {
     "design_ref": "DESIGN.md §6 C16",
     "text": "All eight feature combinations are built and monitored on the same sessions; cross-build transcript equality for sessions that avoid the disabled facility. Exploration.",
     "note": _SESSION_NOTE}
+
+# ---------------------------------------------------------------- generated declarations (C09, C11 stage 2, C12)
+
+_BATCHES = {"batches_quick": [4, 30, 20], "batches_thorough": [12, 60, 40]}
+_DECL_RULE = ("declarations are produced by a seeded generator over a grammar covering every attribute the derive macros read (unit / struct / tuple(sub-command) variants; explicit and kebab-case names incl. multi-byte; positional / option / flag fields of all 17 supported types; Option<T>; default_value, default_value_t bare and with an expression; generated and explicit short/long incl. non-ASCII; value_name; "
+              "named #[command(subcommand)] fields required and optional, nesting <= 3; CommandGroups of 1-3 enums with hidden members and a trailing RawCommand catch-all; help_title; doc comments absent / one line / two lines / multi-paragraph), emitted as Rust source with the derives, compiled with the repository's macros from /repo's working tree, and executed. ")
+PLANS["C09"] = {
+    "level": "exploration",
+    "rule": _DECL_RULE + "For every declaration 70 (quick) / 160 (thorough) lines: valid invocations (every presence/absence combination, options shuffled among positionals, flag clusters, `--`, boundary numerals, quoted and multi-byte values) and mutants (bad value, inserted / removed / swapped / duplicated token, unknown command, bare name); each is typed into a real Cli; "
+            "the structured parse result (Debug rendering or ParseError) recorded by the command processor is compared with a reference interpreter of the declaration spec; on errors: handler not run and exactly one `error:` row carrying the payload; the generated T::processor wrapper must agree. "
+            "distinct = hash of (declaration, item-kind sequence of the line, expectation class)",
+    "assumptions": ["not asserted (counted as unspecified): option at the end of the line or followed by another option / `--` (missing value), repeated option, `--` before a sub-command name, unknown sub-command in a group that has a catch-all member; parent's missing argument vs child's error: either accepted",
+                    "declarations outside the grammar (user FromArgument types, cfg'd fields, generic enums) are not reached"],
+    "min_counts": {"quick": {"c09.expected_ok": 3000, "c09.expected_error": 2500, "c09.error.missing-argument": 200, "c09.error.parse-value": 500, "declarations_compiled": 200},
+                   "thorough": {"c09.expected_ok": 40000, "c09.expected_error": 35000, "c09.error.missing-argument": 3000, "c09.error.parse-value": 8000, "declarations_compiled": 1200}},
+    "stages": [dict({"custom": "declbatch"}, **_BATCHES)],
+}
+MANIFEST_TEXT["C09"] = {
+    "technique": "runtime monitoring of generated programs: seeded declaration generator -> compiled with the repository's derive macros -> structured parse results and error rows compared with a reference interpreter of the declaration",
+    "design_ref": "DESIGN.md §6 C09",
+    "text": "Exploration over 200 (quick) / 1200 (thorough) generated declarations x 70/160 lines each; nothing is claimed for declarations outside the generator grammar.",
+    "note": "Trusted base: declaration generator + emitter, reference interpreter (250 lines), Rust's str::parse as the canonical value parser, derive(Debug) rendering."}
+
+PLANS["C12"] = {
+    "level": "exploration",
+    "rule": _DECL_RULE + "For every declaration: `help`, and for every command path (nested to depth 3, through visible groups) `help p1..pn` and `p1..pn [own options/values] -h|--help` with the help option at a random boundary after pn and valid parent options in between, plus unknown, hidden and unknown-nested names. "
+            "Clauses: the command processor is never called; `help` lists every visible command exactly once with its summary and no hidden one; command help prints every description paragraph, one Usage: row with the full path, each positional's usage name, <COMMAND>/[COMMAND], one entry per positional, per option (short, long, value name) and per sub-command with its summary; "
+            "unknown / hidden -> exactly `error: unknown command`. Output is judged as whitespace-separated words of emulator rows (no dependence on alignment). distinct = hash of (declaration, line)",
+    "assumptions": ["the help option is generated only after the full path (before it, which command it asks about is ambiguous)", "not asserted: alignment, titles, blank lines, order of entries"],
+    "min_counts": {"quick": {"c12.lines.help-command": 1500, "c12.lines.help-option": 1500, "c12.lines.list": 200, "declarations_compiled": 200},
+                   "thorough": {"c12.lines.help-command": 20000, "c12.lines.help-option": 20000, "c12.lines.list": 1400, "declarations_compiled": 1200}},
+    "stages": [dict({"custom": "declbatch"}, **_BATCHES)],
+}
+MANIFEST_TEXT["C12"] = {
+    "technique": "runtime monitoring of generated programs: help output of compiled generated declarations interpreted on a terminal emulator and checked against the declaration spec; handler log must stay empty",
+    "design_ref": "DESIGN.md §6 C12",
+    "text": "Exploration over the same generated declarations as C09, all command paths and help spellings.",
+    "note": "Trusted base: declaration generator + emitter, help expectations derived from the spec, terminal emulator."}
+
+PLANS["C11"]["stages"].append(dict({"custom": "declbatch"}, **_BATCHES))
+PLANS["C11"]["rule"] += (" stage 2: generated name sets (unit variants with explicit multi-byte names sharing prefixes, adjacent and not, split across 1-3 groups, hidden groups, catch-all) compiled with the repository's macros: every prefix of every name (visible and hidden) x {plain, leading blanks, trailing blank(s), argument started} "
+                          "x every cursor position x capacities {len, len+|cont|-1, len+|cont|, +1, 64, ...}; the terminal row/column after Tab must agree with the line")
+PLANS["C11"]["min_counts"]["quick"].update({"c11.gen.completed": 100000, "c11.gen.fit.ContDoesNotFit": 20000})
+PLANS["C11"]["min_counts"]["thorough"].update({"c11.gen.completed": 1500000, "c11.gen.fit.ContDoesNotFit": 300000})
